@@ -3,7 +3,7 @@
 import json, glob, re
 rows=[]
 miss=0; tot=0; nc=0
-for f in sorted(glob.glob('/verif/seeded/C??-[c-z]/meta.json'), key=lambda x: ('cdefghijklmnop'.index(x[-11])//2, x)):
+for f in sorted(glob.glob('/verif/seeded/C??-[c-z]/meta.json'), key=lambda x: ('cdefghijklmnopqrstuv'.index(x[-11])//2, x)):
     d=json.load(open(f)); tot+=1
     cb=d['caught_by']
     first='caught'
